@@ -1,6 +1,7 @@
 // Command extract regenerates, from the current sources of the repository,
 //   - ShellOp/Generated/Facts.lean: literal tables and constants the property theorems are stated over (tie T1);
 //   - one lock/step skeleton per modelled function (tie T3), compared by ../check with expect/skeleton/*.txt.
+//
 // Stdlib only (go/ast); control flow is not translated.
 package main
 
